@@ -184,13 +184,14 @@ def check_batch(res, ctx, batch, want_known=None):
         d = R.diff_hist(m, i)
         if d is not None:
             st["correspondence_diffs"] += 1
-            ctx["corr_diffs"].append((hc, d))
+            ctx["corr_diffs"].append((dict(hc, replay_case=[name, truth, runs]), d))
         if i["status"] != "ok":
-            res.violation("failing-input", "history panicked: %s" % i.get("panic"), {"input": hc})
+            res.violation("failing-input", "history panicked: %s" % i.get("panic"),
+                          {"input": hc, "replay_case": [name, truth, runs]})
             continue
         bad = oracle(res, ctx, name, truth, runs, hc, i)
         if bad:
-            ctx["oracle_failures"].append((name, hc, bad))
+            ctx["oracle_failures"].append((name, dict(hc, replay_case=[name, truth, runs]), bad))
         h = hashlib.sha1(json.dumps(hc, sort_keys=True).encode()).hexdigest()
         if h not in ctx["seen"] and nontrivial(runs, i):
             ctx["seen"].add(h)
@@ -233,7 +234,8 @@ def run(res, ctx):
 
     known = known_findings()
     for name, hc, (what, extra) in ctx["oracle_failures"][:3]:
-        rep = {"input": hc, "case": name}
+        rep = {"input": {k: v for k, v in hc.items() if k != "replay_case"}, "case": name,
+               "replay_case": hc.get("replay_case")}
         rep.update(extra)
         res.violation("failing-input", what, rep)
     if known:
@@ -243,7 +245,8 @@ def run(res, ctx):
         hc, d = ctx["corr_diffs"][0]
         res.violation("broken-correspondence", "model and implementation differ: " + d,
                       {"theorem_or_projection": "correspondence projection C13 (answer per look-up, downloads per year per run in order, final cache content)",
-                       "input": hc, "difference": d, "differing_cases": len(ctx["corr_diffs"])}, found_input=False)
+                       "input": {k: v for k, v in hc.items() if k != "replay_case"}, "difference": d,
+                       "differing_cases": len(ctx["corr_diffs"]), "replay_case": hc.get("replay_case")}, found_input=False)
     res.coverage.update({
         "evaluations": st["evaluations"],
         "distinct_nontrivial": st["distinct_nontrivial"],
@@ -256,3 +259,22 @@ def run(res, ctx):
         "premise of the property: the remote of a run = truth restricted to days before `avail` with today <= avail <= today+1; today and avail non-decreasing over the runs; remote constant during a run and never failing",
         "cache read/write errors (unreadable directory, failed write) are not modelled",
     ]
+
+
+def replay(res, ctx, path):
+    import common
+    rep = json.load(open(path))
+    ctx.update(stats=collections.Counter(), seen=set(), samples=[], corr_diffs=[], oracle_failures=[])
+    r2 = common.Result("C13", ctx["tier"], ctx["seed"])
+    case = rep.get("replay_case")
+    if not case:
+        print("replay: this replay file names no input (%s)" % rep.get("what", "")[:200])
+        return 1
+    name, truth, runs = case
+    # the cache kind of the original case
+    kind = (rep.get("input") or {}).get("cache", "mem")
+    batch = [(name, [R.load_obs(o) for o in truth], runs)]
+    if kind == "csv":
+        batch = [batch[0], batch[0]]      # check_batch alternates mem / csv
+    check_batch(r2, ctx, batch)
+    return R.replay_report(r2, ctx, "history")
